@@ -1868,9 +1868,17 @@ fn has_negsub(t: &T) -> bool
 
 fn order_input(form: usize, xv: i64, t: &T) -> String
 {
-	// class of the case: does the evaluator, given every value at once, leave a subtraction of a negative constant behind?
-	let fresh = real_evaluate(t, &[("x".to_owned(), xv)].into_iter().collect(), &[]);
-	let class = if fresh.tree().is_some_and(has_negsub) {"negsub"} else {"plain"};
+	// class of the case: is the result of the real `evaluate`, given every value at once, a fixed point of `evaluate`?
+	// (a retried statement evaluates the tree a second time; where the first result is not a fixed point the two
+	// orders can hand different trees to the operand readers) — `negsub` is the sub-class repaired by F29
+	let env: BTreeMap<String, i64> = [("x".to_owned(), xv)].into_iter().collect();
+	let fresh = real_evaluate(t, &env, &[]);
+	let class = match fresh.tree()
+	{
+		Some(t1) if has_negsub(t1) => "negsub",
+		Some(t1) if real_evaluate(t1, &env, &[]).tree().is_some_and(|t2| t2 != t1) => "nonfix",
+		_ => "plain",
+	};
 	format!("O {class} {form} {xv} T {}", t.text())
 }
 
@@ -1928,18 +1936,20 @@ fn gen_order_tree(rng: &mut Rng) -> T
 	let k = |rng: &mut Rng| T::C(*rng.pick(&[0i64, 1, -1, 2, -2, 3, 4, -4, 7, 8, 31, 32, 124, -124]));
 	let x = || id("x");
 	let neg = |t: T| T::Neg(Box::new(t));
-	let mut t = match rng.below(6)
+	let mut t = match rng.below(8)
 	{
 		0 => r,
 		1 => bin(ADD, r, k(rng)),
 		2 => bin(SUB, r, k(rng)),
 		3 => bin(ADD, k(rng), r),
 		4 => neg(bin(SUB, k(rng), r)),
+		5 => bin(SUB, bin(SUB, T::C(0), r), id(*rng.pick(&["r2", "r6", "R4"]))),
+		6 => bin(SUB, neg(r), id(*rng.pick(&["r2", "r6", "R4"]))),
 		_ => bin(ADD, r, id(*rng.pick(&["r2", "r6", "R4"]))),
 	};
 	for _ in 0..rng.below(5)
 	{
-		t = match rng.below(16)
+		t = match rng.below(18)
 		{
 			0 => bin(MUL, t, x()),
 			1 => bin(MUL, x(), t),
@@ -1956,6 +1966,8 @@ fn gen_order_tree(rng: &mut Rng) -> T
 			12 => bin(SUB, k(rng), neg(t)),
 			13 => bin(ADD, t, k(rng)),
 			14 => bin(SUB, t, k(rng)),
+			15 => bin(SUB, T::C(0), t),
+			16 => neg(t),
 			_ => bin(ADD, bin(MUL, x(), k(rng)), t),
 		};
 	}
@@ -1975,6 +1987,8 @@ fn run_stmt_order(cx: &mut Cx)
 		(4, 1, bin(MUL, T::Neg(Box::new(bin(SUB, T::C(0), id("r1")))), x())),
 		(0, 0, bin(ADD, bin(ADD, r0(), T::C(1)), x())),
 		(0, 2, bin(ADD, T::Neg(T::Neg(Box::new(r0())).into()), x())),
+		(1, 1, bin(MUL, bin(SUB, T::C(0), bin(SUB, bin(SUB, T::C(0), r0()), id("r1"))), x())),
+		(1, 1, bin(MUL, bin(SUB, T::C(0), bin(SUB, T::Neg(Box::new(r0())), id("r1"))), x())),
 	];
 	for (f, xv, t) in fixed.iter() {check_stmt_order(cx, *f, *xv, t);}
 	let n = if cx.thorough() {60_000} else {6_000};
